@@ -231,7 +231,36 @@ def _c10(tier, seed):
              validate_runs=["H_C10_seqno()", "H_C10_acks(0)", "H_C10_acks(1)", "H_C10_order(2,1000)"], veclen=100),
     ]
 
+def _c11(tier, seed):
+    q = tier == "quick"
+    runs = ["H_C11_new_session()", "H_C11_rotation(1,1)", "H_C11_rotation(2,1)", "H_C11_rotation(1,2)", "H_C11_rotation(2,2)"]
+    if not q:
+        runs += ["H_C11_rotation(3,1)", "H_C11_rotation(3,2)"]
+    return [dict(name="salt", pkg=".", harness=NET_HARNESS + ["harness/root/c16.go", "harness/root/c11.go"], runs=runs, solver="z3", walllimit=900, timeout=3000, replay="schedule",
+                 crash_tags=["process-survives"], validate_runs=["H_C11_new_session()", "H_C11_rotation(1,1)"], veclen=100)]
+
+
+def _c16(tier, seed):
+    q = tier == "quick"
+    runs = ["H_C16_message(%d,%d)" % (k, w) for k in range(16) for w in ((1,) if q else (0, 1))] + ["H_C16_repeated()", "H_C16_reconnect()"]
+    return [dict(name="loop", pkg=".", harness=NET_HARNESS + ["harness/root/c16.go"], runs=runs, solver="z3", walllimit=600, timeout=3000, replay="schedule",
+                 crash_tags=["process-survives"], validate_runs=["H_C16_message(0,1)", "H_C16_message(2,1)", "H_C16_message(9,1)"], veclen=100)]
+
 PROPS = {
+    "C11": dict(
+        jobs=_c11,
+        bounds={"quick": "1 and 2 requests in flight, every non-empty subset of them rejected with bad_server_salt, 1 and 2 successive rotations (symbolic salts), the others accepted and answered after the rotation; new_session_created with a symbolic salt; the library's own receive loop over a fake transport; probe request afterwards",
+                "thorough": "3 requests in flight"},
+        outside="more pending requests / rotations; a key exchange earlier in the same process (stale serviceChannel entries); real sockets; schedules that differ only between yield points",
+        assumptions=["cooperative scheduling model; context and tickers stubbed (tickers never fire)", "fake transport at the messages.Common level"],
+    ),
+    "C16": dict(
+        jobs=_c16,
+        bounds={"quick": "one server message of each of 16 kinds (pong, msgs_ack, new_session_created, bad_msg_notification, rpc_result for an unknown request, unregistered constructor, truncated body at every cut, empty and nested containers, unexpected objects, empty body, bare Bool/vector) with symbolic fields and odd/even seq_no, delivered to the library's own receive loop (startReadingResponses over a fake transport) with a consumer on the Warnings channel; a repeated rpc_result; orderly close (io.EOF) followed by reconnection through a hooked transport factory; each followed by a probe request that must complete",
+                "thorough": "also without a Warnings consumer"},
+        outside="sequences of several such messages (each run is one step from the idle state); real sockets and process exit codes; gzip-packed traffic (C15 decodes it)",
+        assumptions=["a panic escaping any goroutine is process death", "transport.NewTransport hooked inside the engine for the reconnect scenario (not replayable natively)"],
+    ),
     "C10": dict(
         jobs=_c10,
         bounds={"quick": "msg_id arithmetic for every pair of non-decreasing clock readings below 2^31 s (symbolic); one send step from every even seq_no; 2 and 3 concurrent senders with clocks that advance 0 or 1000 ns per reading, every interleaving of clock readings and locked transport writes (yield points: time.Now, transport write); acknowledgement of 2 server messages with every odd/even seq_no combination, alone and in a container",
